@@ -55,7 +55,8 @@ fn parse_lens_into<T: PFlavor>(pool: &mut Pool<T>, names: &[(&str, usize)], pref
         }
         // sequential enumeration (pools are small)
         fn rec<T: PFlavor>(l: &lens::Lens, buf: &mut String, d: usize, n: usize, pool: &mut Pool<T>) {
-            if let Ok(p) = T::parse(buf) {
+            // a panicking parse is C06's business; it cannot contribute a value
+            if let Ok(Ok(p)) = guarded(|| T::parse(buf)) {
                 let src = buf.clone();
                 pool.add(p, || json!({"parsed": src}));
             }
@@ -115,7 +116,7 @@ fn build_product_into<T: Flavor>(pool: &mut Pool<T>, types: &[&str], mk: impl Fn
                 for (k, v) in qs {
                     b = b.with_qualifier(*k, *v).expect("valid key");
                 }
-                if let Ok(p) = b.build() {
+                if let Ok(Ok(p)) = guarded(|| b.build()) {
                     pool.add(p, || json!({"built": {"ty": ty, "ns": UNIVERSE[t[0]], "name": UNIVERSE[t[1]], "version": UNIVERSE[t[2]], "subpath": UNIVERSE[t[3]], "quals": qs}}));
                 }
             }
